@@ -8,7 +8,7 @@ COQ_TARGETS = ["Properties/C05.vo", "Model/Dispatch.vo"]
 THEOREMS = ["C05_invariant_new", "C05_invariant_item", "C05_invariant_reinit", "C05_invariant_merge",
             "C05_registers_are_max", "C05_new_is_final", "C05_item_keeps_final", "C05_merge_is_union",
             "C05_merge_equals_sketch_of_union", "C05_merge_registers", "C05_merge_refused",
-            "C05_superminhash_source_flag", "C05_superminhash_is_min", "C05_superminhash_union_is_min"]
+            "C05_superminhash_source_flag", "C05_superminhash_is_min", "C05_superminhash_union_is_min", "C05_merge_commutative", "C05_merge_associative", "C05_merge_idempotent"]
 AXIOMS_ALLOWED = []
 TRANSLATORS = [("flags-smh", sklib.translate_flags_smh)]
 TRUSTED_BASE = [
